@@ -87,7 +87,7 @@ def wide_documents(draw, max_subnets=9, extras=True):
         cfg = dict(os=draw(st.sampled_from(oss)), services=list(srvs) if _coin(draw, 0.85) else [draw(st.sampled_from(srvs))],
                    processes=["tomcat"] if _coin(draw, 0.8) else [])
         if _coin(draw, 0.1):
-            near = [b for b in addrs if b != a and topo[b[0]][a[0]] == 1]
+            near = [b for b in addrs if topo[b[0]][a[0]] == 1]
             if near:
                 cfg["firewall"] = {draw(st.sampled_from(near)): [draw(st.sampled_from(srvs))]}
         if _coin(draw, 0.3):
@@ -212,7 +212,9 @@ def documents(draw, max_subnets=4, max_size=3, max_hosts=7, extras=True,
                    processes=[p for p in procs if _coin(draw, 0.6)])
         if _coin(draw, 0.6 if deny_rich else 0.35):
             fw = {}
-            near = [b for b in addrs if b != a and topo[b[0]][a[0]] == 1] or addrs
+            # sources: hosts of connected subnets - including the host itself (a valid address;
+            # after it is compromised it is an attacker position like any other)
+            near = [b for b in addrs if topo[b[0]][a[0]] == 1] or addrs
             nsrc = draw(st.integers(1, min(3, len(near))))
             for src in draw(st.lists(st.sampled_from(near), min_size=nsrc,
                                      max_size=nsrc, unique=True)):
